@@ -9,6 +9,7 @@ import (
 	"net/http"
 	"net/url"
 	"regexp"
+	"runtime"
 	"strings"
 	"time"
 
@@ -297,24 +298,77 @@ func serve(h http.Handler, q reqSpec) (rec *recorder, panicked any) {
 	return rec, nil
 }
 
-// serveDeadline is serve under a per-request deadline: a request that gets no reply in time
-// is an observation (hung), not a harness error; its goroutine is abandoned.
+// serveDeadline is serve under a per-request deadline: a request that gets no reply is an
+// observation (hung), not a harness error; its goroutine is abandoned.  To keep the verdict
+// independent of machine load, "no reply" is declared only when, after the deadline, the
+// serving goroutine is BLOCKED (waiting for a lock, a channel, a condition) on two samples
+// one second apart; while it is running or runnable the wait goes on (up to two minutes).
 func serveDeadline(h http.Handler, q reqSpec, d time.Duration) (rec *recorder, panicked any, hung bool) {
 	type out struct {
 		r *recorder
 		p any
 	}
 	ch := make(chan out, 1)
+	gid := make(chan string, 1)
 	go func() {
+		gid <- goroutineID()
 		r, p := serve(h, q)
 		ch <- out{r, p}
 	}()
+	id := <-gid
+	timer := time.NewTimer(d)
+	defer timer.Stop()
 	select {
 	case o := <-ch:
 		return o.r, o.p, false
-	case <-time.After(d):
-		return nil, nil, true
+	case <-timer.C:
 	}
+	blockedSamples := 0
+	for waited := time.Duration(0); waited < 2*time.Minute; waited += time.Second {
+		if goroutineBlocked(id) {
+			blockedSamples++
+			if blockedSamples >= 2 {
+				return nil, nil, true
+			}
+		} else {
+			blockedSamples = 0
+		}
+		select {
+		case o := <-ch:
+			return o.r, o.p, false
+		case <-time.After(time.Second):
+		}
+	}
+	return nil, nil, true
+}
+
+var reGoroutineHeader = regexp.MustCompile(`(?m)^goroutine (\d+) \[([^\]]*)\]:`)
+
+func goroutineID() string {
+	buf := make([]byte, 64)
+	n := runtime.Stack(buf, false)
+	if m := reGoroutineHeader.FindSubmatch(buf[:n]); m != nil {
+		return string(m[1])
+	}
+	return ""
+}
+
+// goroutineBlocked: the goroutine exists and waits for a lock, a semaphore, a channel or a condition
+func goroutineBlocked(id string) bool {
+	buf := make([]byte, 8<<20)
+	n := runtime.Stack(buf, true)
+	for _, m := range reGoroutineHeader.FindAllSubmatch(buf[:n], -1) {
+		if string(m[1]) == id {
+			st := string(m[2])
+			for _, w := range []string{"Lock", "semacquire", "chan ", "select", "sync.", "Cond"} {
+				if strings.Contains(st, w) {
+					return true
+				}
+			}
+			return false
+		}
+	}
+	return false
 }
 
 var (
